@@ -73,6 +73,11 @@ def near_ir(r, ir):
             cands.append((k, "doc", p["doc"].replace(" ", "  ", 1) if r.random() < 0.3 and " " in p["doc"] else "changed " + p["doc"]))
         if p.get("typ") in ("int", "float"):
             cands.append((k, "typ", {"int": "float", "float": "int"}[p["typ"]]))
+    if len(params) > 1 and r.random() < 0.25:
+        # the same entries in another order (nothing else differs)
+        k = r.randrange(1, len(params))
+        out["params"] = params[k:] + params[:k]
+        return out
     if not cands:
         out["doc"] = "changed " + out["doc"]
         return out
